@@ -361,9 +361,11 @@ def sx_block(b):
         elif k == 'pass': out.append('(pass)')
     return '(' + ' '.join(out) + ')'
 
-def src_func(f):
+def src_func(f, annotate=False):
     dec = '@fp.fpy' if f['decl'] is None else f'@fp.fpy(ctx={CTXS[f["decl"]][0]})'
-    return '\n'.join([dec, f'def {f["name"]}(' + ', '.join(f['params']) + '):'] + src_block(f['body'], 1)) + '\n'
+    ann = {'R': ': fp.Real', 'L': ': list[fp.Real]'}
+    ps = [p + (ann.get(t, '') if annotate else '') for p, t in zip(f['params'], f['ptys'])]
+    return '\n'.join([dec, f'def {f["name"]}(' + ', '.join(ps) + '):'] + src_block(f['body'], 1)) + '\n'
 
 def sx_func(f):
     c = '_' if f['decl'] is None else '(' + ctx_tok(CTXS[f['decl']][1]) + ')'
